@@ -1172,6 +1172,35 @@ func (e *env) settle(l int, seq uint64, mode string) {
 			e.violate("ack-both-arms-nondeterministic", fmt.Sprintf("ack: an acknowledgement carrying BOTH a result and an error is settled differently from one relay of the same bytes on the same state to the next (tok=%s evm=%v): %s", st.tok, st.evm, strings.Join(os, " | ")))
 		}
 	}
+	if class != "ok" && class != "bad" && st.evm && st.tok == "A" && e.convertible("A", ch) && e.rng.Intn(5) == 0 {
+		// the chain is restarted from an exported genesis while the transfer is in flight (monitor only, throw-away branch):
+		// the erc20 module's state is replaced by InitGenesis(ExportGenesis()), then the same relay arrives.  IBC core exports
+		// its packet commitments, so the packet is still refundable — in ERC-20 form only if the tracking record travelled too
+		bctx, _ := branch()
+		gres := hx.Try(func() error {
+			gs := s.App.Erc20Keeper.ExportGenesis(bctx)
+			store := bctx.KVStore(s.App.GetKey(erc20types.StoreKey))
+			var keys [][]byte
+			it := store.Iterator(nil, nil)
+			for ; it.Valid(); it.Next() {
+				keys = append(keys, append([]byte{}, it.Key()...))
+			}
+			it.Close()
+			for _, k := range keys {
+				store.Delete(k)
+			}
+			s.App.Erc20Keeper.InitGenesis(bctx, *gs)
+			return run(bctx)
+		})
+		saved := s.Ctx
+		s.Ctx = bctx
+		_, gds := delta(h0, e.holdings(a))
+		s.Ctx = saved
+		e.out.Count("genesis-roundtrip-then-refund:" + map[bool]string{true: "erc20-form", false: "other"}[gres == "ok" && gds == fmt.Sprintf("erc:base%+d", st.amt)])
+		if gres != "ok" || gds != fmt.Sprintf("erc:base%+d", st.amt) {
+			e.violate("genesis-drops-relations", fmt.Sprintf("refund: after an export / import of the erc20 module's genesis an in-flight EVM-originated transfer of %d is refunded as [%s] (callback: %s), expected [erc:base%+d]: the tracking records are not part of the genesis state (tok=A mode=%s)", st.amt, gds, firstWords(gres), st.amt, mode))
+		}
+	}
 	cctx, write := branch()
 	res := hx.Try(func() error { return run(cctx) })
 	den := bankDenom(st.tok, ch)
